@@ -77,6 +77,7 @@ def gen_spec(rng: np.random.Generator, tier: str, hermitian: bool = True, **forc
         units_exp=int(rng.integers(36, 64)) if rng.random() < 0.12 else 0,
         # a user-chosen `atol` far below every gap (>= 1/16) and entry (>= 1/8) of the generated problem: must be neutral
         user_atol=float(rng.choice([1e-4, 1e-5, 1e-6, 1e-9])) if rng.random() < 0.15 else 0.0,
+        fine_grid=bool(rng.random() < 0.3),
     )
     if spec["vtype"] == "sympy" and spec["design"] == "indices" and rng.random() < 0.35:
         spec["container"] = "sympy_matrix"
@@ -126,7 +127,7 @@ def normalise(spec: dict, thorough: bool = False) -> dict:
 
 def signature(spec: dict) -> list:
     return [
-        spec["hermitian"], spec["nblocks"], sorted(spec["sizes"]), spec["n_par"], spec["vtype"] + ("-spmatrix" if spec["vtype"] == "sparse" and spec.get("sparse_kind") == "matrix" else ""), spec["complex"], bool(spec.get("offset")), bool(spec.get("near_deg")), bool(spec.get("int_h0")), bool(spec.get("int_all")), bool(spec.get("real_pert")), bool(spec.get("units_exp")), bool(spec.get("user_atol")),
+        spec["hermitian"], spec["nblocks"], sorted(spec["sizes"]), spec["n_par"], spec["vtype"] + ("-spmatrix" if spec["vtype"] == "sparse" and spec.get("sparse_kind") == "matrix" else ""), spec["complex"], bool(spec.get("offset")), bool(spec.get("near_deg")), bool(spec.get("int_h0")), bool(spec.get("int_all")), bool(spec.get("real_pert")), bool(spec.get("units_exp")), bool(spec.get("user_atol")), bool(spec.get("fine_grid")),
         spec["sel"], spec["design"], spec["container"], spec["extra_orders"], spec["degenerate"], spec["max_total"],
     ]
 
@@ -210,6 +211,12 @@ def build(spec: dict) -> Problem:
         # large common offset: relative gaps become small (but stay above the library's relative
         # threshold 1e-5 for coupled blocks), absolute gaps unchanged
         E_num = [e + 16 * int(spec["offset"]) for e in E_num]
+    eden = 16
+    if spec.get("fine_grid") and not spec.get("int_h0"):
+        # levels on a 1/48 grid (non-terminating decimals; gaps >= 1/48): level -> 3*level + r(level), r in {-1, 0, 1}
+        # the same for equal levels, so that degeneracies survive
+        E_num = [3 * e + ((e * 7) % 3) - 1 for e in E_num]
+        eden = 48
     E_im = [0] * N
     herm_values = spec.get("herm_values", hermitian)
     if not herm_values and cplx:
@@ -230,7 +237,7 @@ def build(spec: dict) -> Problem:
         nums[o] = _rand_matrix(rng, N, cplx and not spec.get("real_pert"), herm_values, integer=bool(spec.get("int_all")))
     z = (0,) * n_par
 
-    terms_f = {z: np.diag(np.array(E_num, float) / 16 + 1j * np.array(E_im, float) / 2).astype(complex)}
+    terms_f = {z: np.diag(np.array(E_num, float) / eden + 1j * np.array(E_im, float) / 2).astype(complex)}
     for o, (re, im) in nums.items():
         terms_f[o] = (re + 1j * im).astype(complex) / DEN
     terms_x = None
@@ -239,7 +246,7 @@ def build(spec: dict) -> Problem:
         terms_x = {}
         H0x = gr_zeros((N, N))
         for i in range(N):
-            H0x[i, i] = GR(Fraction(E_num[i], 16), Fraction(E_im[i], 2))
+            H0x[i, i] = GR(Fraction(E_num[i], eden), Fraction(E_im[i], 2))
         terms_x[z] = H0x
         for o, (re, im) in nums.items():
             M = gr_zeros((N, N))
